@@ -50,7 +50,8 @@ def oracle(ctx, obs):
             ctx.violation("S5", "harness crashed", {"kind": "crash"}, o, found_input=False)
         elif o["kind"] == "skip":
             ctx.count("skip:" + o["why"].split(":")[0][:40])
-        elif o["kind"] in ("pt_panic", "rates_panic"):
+        elif o["kind"] in ("pt_panic", "rates_panic", "norm_panic"):
+            ctx.current_input = pmcases.input_key(o, ("kind", "id", "setup") + (("k",) if "k" in o else ()))
             ctx.violation("S5", "the library panicked while evaluating a setup or its exchanged twin", {"kind": "panic"}, o)
     # scale of each setup's spectrum: the largest |jsa| / jsi among its sampled pairs (the first pair is the centre of the spectrum).
     # The property's "1e-6 relative" is relative to this scale: far out in the wings (|jsa| ~ 1e-8 of the peak) the 49-term Simpson sum
@@ -70,6 +71,7 @@ def oracle(ctx, obs):
         peak_i[o["id"]] = max([peak_i.get(o["id"], 0.0)] + [v for v in ivals if v == v])
     tie_bad = 0
     for o in pts:
+        ctx.current_input = pmcases.input_key(o, ("kind", "id", "setup"))    # the three frequency pairs of the setup (they set the scale)
         key = ("pt", o["id"], o["k"], o["p"]["omega_s"], o["p"]["omega_i"])
         st = o["setup"]
         nontrivial = (st["theta_s_ext_deg"] != 0 or st["ws_m"] != st["wi_m"] or st["lambda_s_m"] != 2 * st["lambda_p_m"])
@@ -125,6 +127,7 @@ def oracle(ctx, obs):
         if o["kind"] != "rates":
             continue
         nrates += 1
+        ctx.current_input = pmcases.input_key(o, ("kind", "id", "setup"))
         r = o["r"]
         g = lambda k: f64_of_hex(r[k])
         st = o["setup"]
@@ -195,8 +198,72 @@ def oracle(ctx, obs):
                               {"setup": st, qa: va, qb + "_exchanged": vb, "ratio": ratio, "ng_s": g("ng_s"), "ng_i": g("ng_i"),
                                "get_counts_correction": g("corr"), "get_counts_correction_exchanged": g("corr_sw"),
                                "call": "spdc.counts_*(range, Integrator::default()) vs spdc.with_swapped_signal_idler().counts_*(transposed range, ..)"})
+    ctx.n_norm_e_oe = getattr(ctx, "n_norm_e_oe", 0) + normalized_spectra(ctx, obs)
+    ctx.current_input = None
     ctx.n_pts, ctx.n_rates = len(pts), nrates
     return pts
+
+
+NORM_PAIRS = (
+    # (values of the setup on the grid, values of an exchanged setup on the transposed grid, signature kind, which exchange, text)
+    ("jsi_n", "jsi_n_sw_t", "jsi_normalized_exchange", "with_swapped_signal_idler",
+     "jsi_normalized_range of a setup differs from jsi_normalized_range of with_swapped_signal_idler() on the transposed grid"),
+    ("jsi_n", "jsi_n_hand_t", "jsi_normalized_exchange", "hand_built",
+     "jsi_normalized_range of a setup differs from jsi_normalized_range of the exchanged experiment (built through SPDC::new) on the transposed grid"),
+    ("idler_n", "signal_n_hand_t", "singles_idler_normalized", "hand_built",
+     "jsi_singles_idler_normalized_range of a setup differs from jsi_singles_normalized_range of the exchanged experiment (built through "
+     "SPDC::new) on the transposed grid"),
+    ("idler_n", "signal_n_sw_t", "singles_idler_normalized", "with_swapped_signal_idler",
+     "jsi_singles_idler_normalized_range of a setup differs from jsi_singles_normalized_range of with_swapped_signal_idler() on the transposed grid"),
+    ("signal_n", "idler_n_hand_t", "singles_signal_normalized", "hand_built",
+     "jsi_singles_normalized_range of a setup differs from jsi_singles_idler_normalized_range of the exchanged experiment (built through "
+     "SPDC::new) on the transposed grid"),
+    ("jsi", "jsi_hand_t", "jsi_grid_exchange", "hand_built",
+     "jsi_range of a setup differs from jsi_range of the exchanged experiment (built through SPDC::new) on the transposed grid"),
+    ("idler", "signal_hand_t", "singles_idler_spectrum", "hand_built",
+     "jsi_singles_idler_range of a setup differs from jsi_singles_range of the exchanged experiment (built through SPDC::new) on the transposed grid"),
+)
+
+
+def normalized_spectra(ctx, obs):
+    """spectra normalized to their value at the optimum centre (JointSpectrum::new re-derives that centre from crystal_setup.pm_type), and
+    absolute spectra, of a setup against (a) the library's exchange and (b) an exchange built by hand without PMType::inverse.
+    Returns the number of e -> oe setups evaluated."""
+    inv = {"Type2_e_eo": "Type2_e_oe", "Type2_e_oe": "Type2_e_eo"}
+    n_e_oe = 0
+    for o in obs:
+        if o["kind"] != "norm":
+            continue
+        ctx.current_input = pmcases.input_key(o, ("kind", "id", "setup"))
+        r, st = o["r"], o["setup"]
+        ctx.seen(("norm", o["id"], r["jsi_n"][0], r["idler_n"][0]))
+        ctx.count("normalized:" + r["pm_type"])
+        n_e_oe += r["pm_type"] == "Type2_e_oe"
+        want = inv.get(r["pm_type"], r["pm_type"])
+        if r["pm_type_sw"] != want or r["pm_type_hand"] != want:
+            ctx.violation("S5", f"with_swapped_signal_idler() of a {r['pm_type']} setup has crystal_setup.pm_type = {r['pm_type_sw']}, the exchanged "
+                          f"experiment is {want}", {"kind": "exchange_pm_type", "pm_type": r["pm_type"]},
+                          {"setup": st, "pm_type": r["pm_type"], "pm_type_of_library_exchange": r["pm_type_sw"], "expected": want})
+        pos_t = {(g2[0], g2[1]): k for k, g2 in enumerate(r["grid_t"])}
+        perm = [pos_t.get((g1[1], g1[0])) for g1 in r["grid"]]
+        if any(k is None for k in perm) or len(set(perm)) != len(perm):
+            ctx.violation("S4", "transposed grid does not consist of the exchanged frequency pairs", {"kind": "grid_pairing"}, {"setup": st},
+                          found_input=False)
+            continue
+        for ka, kb, kind, against, text in NORM_PAIRS:
+            a = [f64_of_hex(x) for x in r[ka]]
+            b = [f64_of_hex(r[kb][k]) for k in perm]
+            m = max([abs(x) for x in a + b if x == x] + [0.0])
+            if m == 0:
+                ctx.count("normalized:all-zero grid")
+                continue
+            if not finite(*a, *b) or any(far(x, y, 2 * TOL * m) for x, y in zip(a, b)):
+                worst = max([abs(x - y) / m for x, y in zip(a, b) if x == x and y == y] + [0.0])
+                ctx.violation("S5", f"{text} ({st['crystal']} {r['pm_type']}: largest difference {worst:.3e} of the grid's maximum, > 2e-6)",
+                              {"kind": kind, "against": against, "pm_type": r["pm_type"]},
+                              {"setup": st, ka: a, kb + "ransposed_back": b, "grid_rad_per_s": [[f64_of_hex(x) for x in g1] for g1 in r["grid"]],
+                               "largest_relative_difference": worst})
+    return n_e_oe
 
 
 def correspondence(ctx, pts, npts, nz):
@@ -250,6 +317,9 @@ PM_BOOL = """Ltac pm_bool := repeat match goal with
 
 def run(ctx):
     binp = build_harness(ctx)
+    pmcases.tag_inputs(ctx)
+    if getattr(ctx, "replay", None):
+        return pmcases.replay(ctx, binp, oracle, timeout=1500)
     msgs, spans = regen(ctx, ["pm_integrand"])
     ctx.cov["translated_spans"] = {k: v for k, v in spans.items() if any(t in v["file"] for t in
                                    ("coincidences", "normalization", "phasematch/mod", "joint_spectrum", "spdc_obj", "pm_type", "counts"))}
@@ -262,8 +332,12 @@ def run(ctx):
         ctx.note("finding C06 counts correction: the refuted lemma no longer compiles (defect repaired or source changed)")
     quick = ctx.tier == "quick"
     n, nrates = (14, 3) if quick else (80, 12)
-    obs = run_harness(ctx, binp, ["c06", ctx.seed, n, nrates], timeout=1500)
+    args = ["c06", ctx.seed, n, nrates]
+    obs = pmcases.tagged(args, run_harness(ctx, binp, args, timeout=1500))
     pts = oracle(ctx, obs)
+    if ctx.n_norm_e_oe < 1:
+        ctx.violation("S5", "no e -> oe setup (the phase-matching type whose exchange is e -> eo) could be built and evaluated with its normalized "
+                      "spectra on this tree", {"kind": "too_few_inputs", "what": "e_oe"}, {"e_oe_setups": ctx.n_norm_e_oe}, found_input=False)
     if ctx.n_pts < 2 * n or ctx.n_rates < max(1, nrates // 2):
         ctx.violation("S5", f"too few evaluated inputs: {ctx.n_pts} frequency pairs (of {3 * n}) and {ctx.n_rates} rate grids (of {nrates}) — "
                       "the generator could not build its setups on this tree", {"kind": "too_few_inputs"},
@@ -279,14 +353,15 @@ def run(ctx):
     if (not proved or ctx.case_failures) and not any(v["found_input"] and not v["sig"].get("ratio_is_group_index_ratio") for v in ctx.violations):
         ctx.log("S5 deep search for a failing input (proof obligations / correspondence are broken)")
         for k in range(2 if quick else 6):
-            obs2 = run_harness(ctx, binp, ["c06", ctx.seed + 1000 + k, 60, 6], timeout=1500)
+            args2 = ["c06", ctx.seed + 1000 + k, 60, 6]
+            obs2 = pmcases.tagged(args2, run_harness(ctx, binp, args2, timeout=1500))
             oracle(ctx, obs2)
             if any(v["found_input"] and not v["sig"].get("ratio_is_group_index_ratio") for v in ctx.violations):
                 break
     ctx.cov["rule"] = ("random setups: crystal/type from 13 (poled: 7, angle-tuned: 6) classes, L 0.5-20 mm log-uniform, pump 380-800 nm, signal "
                        "non-degenerate by up to 25 % (1/8 exactly degenerate), external signal angle 0.2-4 deg at random azimuth (1/6 collinear), "
                        "independent waists 30-400 um (1/6 equal, 1/4 elliptic), random waist positions, 8 apodization kinds, random pump bandwidth / "
-                       "threshold; 3 frequency pairs per setup (centre + 2 detuned within 1.2 pump widths); rates on 5x5 grids. distinct = distinct "
+                       "threshold; the first three setups of a run are KTP e->oe poled, BBO e->oe angle-tuned, KTP e->eo poled; 3 frequency pairs per setup (centre + 2 detuned within 1.2 pump widths); rates on 5x5 grids. distinct = distinct "
                        "(setup, frequency-pair bits); non-trivial = non-collinear or unequal waists or non-degenerate, with non-zero jsa")
     ctx.cov["clauses"] = {
         "integrand exchange identity (all parameters, all z)": "proved (generated model)",
@@ -295,6 +370,7 @@ def run(ctx):
         "JSI and grid sums invariant": "proved",
         "coincidence rate invariant": "proved_partial (needs symmetric counts correction; REFUTED in general: Findings/C06_counts_correction.v; "
                                       "exact law rate_exchanged * ng_s = rate * ng_i proved and checked against the dumped group indices)",
+        "normalized spectra (jsi_normalized, jsi_singles[_idler]_normalized) and absolute spectra: setup vs with_swapped_signal_idler() vs an exchange built through SPDC::new without PMType::inverse": "validated_only (S5, 2e-6 of the grid maximum, every setup; e -> oe poled and angle-tuned and e -> eo forced in every run)",
         "idler singles spectrum = exchanged signal singles spectrum": "definitional (the code computes it through the exchanged setup; shape pinned by the generator, transposition checked on Rust outputs)",
         "cell area dw2 = dws * dwi from the generated division widths of the two axes; transposed grid": "proved (Steps2D::division_widths pinned; widths recomputed from the grid end points in S5)",
         "idler singles rate = exchanged signal singles rate": "proved_partial (same correction-factor defect)",
